@@ -85,14 +85,17 @@ PROPERTIES = {
     "C05": {
         "level": "proof",
         "kani": ["float::check_to_f32", "float::check_to_f64", "float::check_kind_f32", "float::check_kind_f64",
-                 "tofixed::check_tfh_i32", "tofixed::check_tfh_i64", "tofixed::cover_tfh"],
+                 "tofixed::check_tfh_i32", "tofixed::check_tfh_i64", "tofixed::cover_tfh",
+                 "floatglue::i8_from_f32", "floatglue::u8_from_f32", "floatglue::i8_from_f64", "floatglue::u8_from_f64",
+                 "floatglue::nan_panics_in_saturating", "floatglue::nan_panics_in_wrapping", "floatglue::inf_panics_in_overflowing",
+                 "floatglue::i8_to_float", "floatglue::u8_to_float", "floatglue::u128_to_float", "floatglue::i64_to_float"],
         "explanation": "from_to_float_helper equals the IEEE-754 round-to-nearest-even encoder bit for bit, and to_float_kind equals the exact "
                        "rounding of the decoded float, for every bit pattern and all 507 layouts (Kani function contracts, symbolic layout)",
-        "not_covered": ["policy glue (checked_/saturating_/wrapping_/overflowing_from_float helpers) per family: harness pending"],
+        "bounded_parts": ["policy glue (private_*_from_float_helper, to_num::<f32/f64>): verified on the 8-bit families (all layouts, every float bit pattern) and two wider layouts; other widths share the macro body"],
     },
     "C06": {
         "level": "proof",
-        "verus_units": ["round"],
+        "verus_units": ["round@*"],
         "kani_thorough": ["round8::i8f::rounding_all_layouts", "round8::u8f::rounding_all_layouts"],
         "explanation": "INT_MASK/FRAC_MASK/INT_LSB/FRAC_MSB, int, frac, round_to_zero and the 4 x 5 rounding forms verified (Verus) for all ten "
                        "families with a symbolic Frac against floor/ceil/round/ties-to-even/to-zero over unbounded integers",
@@ -117,7 +120,7 @@ PROPERTIES = {
     },
     "C11": {
         "level": "proof",
-        "verus_units": ["arith_widen", "arith128", "nofrac", "fracops", "round"],
+        "verus_units": ["arith_widen", "arith128", "nofrac", "fracops", "round@*", "transc"],
         "kani": [{"harness": h, "classes": ["panic"]} for h in
                  _mods("arith8", ["i4f4", "i0f8", "u4f4", "u0f8"], FORMS) + ["arith8::abs_forms_i8"] + TFH
                  + ["float::check_to_f32", "float::check_to_f64", "float::check_kind_f32", "float::check_kind_f64"]
@@ -144,12 +147,12 @@ PROPERTIES = {
     },
     "C09": {
         "level": "other",
-        "kani": ["display::display_default", "display::display_precision", "display::display_precision_region_reachable", "display::display_sign",
+        "kani": ["display::display_default", "display::display_precision", "display::display_sign",
                  "display::display_plus", "display::display_zero_pad", "display::display_width", "display::display_lower_hex",
                  "display::display_upper_hex", "display::display_binary", "display::display_octal", "display::display_alt_hex"],
         "explanation": "BOUNDED: the real fmt_dec / fmt_radix2 (run-time frac_nbits through the hook new-types) on every 8-bit value and all nine "
                        "layouts: `{}` is the correct rounding at the digits shown and lies within half an ulp (round trip); `{:.p}` for p <= 9 is the "
-                       "exactly rounded expansion outside the region of the known finding; sign / + / zero padding / width only add prefix and padding; "
+                       "exactly rounded expansion; sign / + / zero padding / width only add prefix and padding; "
                        "radix 2, 8, 16 outputs are exact",
         "bounded_parts": ["8-bit layouts only; precision <= 9; width <= 12; one flag at a time; core::str::from_utf8 stubbed by its unchecked variant"],
     },
